@@ -312,6 +312,10 @@ func genFlow(t *Tape, name string) *Plan {
 		k.WPub = 14
 		cfg.MapOrder = true
 		k.Topics = []string{"t", "u"}
+		// small write buffers and payloads of mixed sizes: packets below and above the buffer size in one stream
+		cfg.WriteBuf = []int{0, 16, 32, 64}[t.Draw("c12.writebuf", 4)]
+		cfg.WritesPending = []int32{0, 4, 8}[t.Draw("c12.wp", 3)]
+		k.PadMax = 90
 	case "C09":
 		k.ConcPct = []int{0, 0, 25}[t.Draw("c09.conc", 3)]
 		if t.Draw("c09.failwrite", 2) == 0 {
@@ -321,6 +325,27 @@ func genFlow(t *Tape, name string) *Plan {
 	// subscriber first
 	g.Connect(0)
 	g.Subscribe(0)
+	if name == "C12" && t.Draw("c12.shape", 3) == 0 {
+		// backlog skeleton: the subscriber stops reading, one publisher sends a burst on one topic (sizes on both
+		// sides of the write buffer), the subscriber reads again; the random tail follows
+		first := len(g.plan.Ops)
+		for i := range g.plan.Ops {
+			if g.plan.Ops[i].Kind == "subscribe" && g.plan.Ops[i].Pkt != nil && len(g.plan.Ops[i].Pkt.Filters) > 0 {
+				g.plan.Ops[i].Pkt.Filters[0].Filter = "#"
+			}
+		}
+		g.Connect(1)
+		g.add(Op{Kind: "stall", Slot: 0})
+		for i, n := 0, 3+t.Draw("c12.burst", 4); i < n; i++ {
+			pi := g.Publish(1)
+			g.plan.Ops[pi].Pkt.Topic = "t"
+		}
+		g.add(Op{Kind: "unstall", Slot: 0})
+		g.add(Op{Kind: "advance", Ms: 10})
+		for i := first; i < len(g.plan.Ops); i++ {
+			g.plan.Ops[i].Concurrent = false
+		}
+	}
 	if name == "C09" && t.Draw("c09.shape", 4) == 0 {
 		// lost-reply skeleton: a persistent subscriber acknowledges a QoS 1/2 delivery by hand while the broker's next
 		// write on that connection fails (the connection dies between the acknowledgement and the reply), then it
